@@ -472,5 +472,5 @@ func (sn *symlinkNode) setMode(mode fs.FileMode, u avfs.UserReader) bool {
 }
 
 func (sn *symlinkNode) size() int64 {
-	return 1
+	return int64(len(sn.link))
 }
